@@ -470,7 +470,7 @@ class Engine:
             except Panic as e:
                 if self._check() == z3.sat:
                     m = self.solver.model()
-                    v = Violation(e.kind, str(e), None, self.decisions[:self.pos], where=[f.name for f in self.callstack[-4:]])
+                    v = Violation(e.kind, str(e), None, self.decisions[:self.pos], where=getattr(e, 'stack', None) or [f.name for f in self.callstack[-4:]])
                     if describe is not None:
                         v.data = describe(m)
                     self.violations.append(v)
@@ -735,6 +735,10 @@ class Engine:
                     raise Panic('resume/abort terminator reached in ' + f.name)
                 else:
                     raise Unsupported('terminator ' + repr(term))
+        except Panic as ex:
+            if not hasattr(ex, 'stack'):
+                ex.stack = [g.name for g in self.callstack[-4:]]
+            raise
         finally:
             self.callstack.pop()
             self.frame_subst.pop()
@@ -1039,6 +1043,9 @@ class Engine:
                 if m2:
                     return FnItem(m2.group(1))
             return Agg([], ty=head_name(ty))
+        m = re.match(r'([A-Za-z_][\w:]*)(?:::<.*>)? \{\{.*\}\}$', c)
+        if m:
+            return Agg([], ty=m.group(1).split('::')[-1])      # constant struct of zero-sized markers (e.g. bincode Configuration)
         m = re.search(r'::(promoted\[\d+\])$', c)
         if m:
             key = f.name + '::' + m.group(1)
@@ -1617,6 +1624,10 @@ def _unify(pat, ty, sub):
     mp = re.match(r'([\w&\[\]]+)<(.*)>$', pat); mt = re.match(r'([\w&\[\]]+)<(.*)>$', ty)
     if mp and mt and mp.group(1) == mt.group(1):
         ps = split_top(mp.group(2)); ts = split_top(mt.group(2))
-        if len(ps) == len(ts):
+        if len(ps) >= len(ts):
             for a, b in zip(ps, ts):
                 _unify(a, b, sub)
+            for a in ps[len(ts):]:
+                # defaulted type parameter that the callee text does not spell out (hashbrown's `S = DefaultHashBuilder`)
+                if a == 'S':
+                    sub[a] = 'DefaultHashBuilder'
